@@ -227,7 +227,7 @@ class Model:
             res = []
             for k in range(len(labs) + 1):
                 xl[0] = (xl[0] * 1103515245 + 12345) % (1 << 31)
-                if (xl[0] >> 8) % 3 == 0:
+                if (xl[0] >> 8) % 2 == 0:
                     res.append(ind3 + extra[(xl[0] >> 12) % len(extra)])
                 if k < len(labs):
                     res.append(labs[k])
